@@ -1,5 +1,11 @@
 package main
 
-import "verifharness/checks/c04"
+import (
+	"verifharness/checks/c04"
+	"verifharness/checks/c07"
+)
 
-func init() { registry["C04"] = entry{"fault_enumeration", c04.Run} }
+func init() {
+	registry["C04"] = entry{"fault_enumeration", c04.Run}
+	registry["C07"] = entry{"exploration", c07.Run}
+}
